@@ -13,7 +13,7 @@ func GenerateNested(nested profile.NestedExpression, iriExpander *misc.IriExpand
 	pathResult := GenerateNodeSet(nested.Path, nested.Parent.Name, iriExpander)
 	pluralName := fmt.Sprintf("%ss", nested.Child.Name)
 
-	rego = append(rego, "#  querying path: "+path.Source())
+	rego = append(rego, queryingPathComment(path.Source()))
 	rego = append(rego, fmt.Sprintf("%s = %s with data.sourceNode as %s", pluralName, pathResult.rule, nested.Parent.Name))
 	tracePath, err := nested.Path.Trace(iriExpander)
 	if err != nil {
